@@ -889,7 +889,7 @@ def run(ctx):
         c, t = gen_small_float_case(rng)
         cases.append(c); tagsl.append(t)
     if not P6G_OFF:
-        for gc, gt in (gen_representation_cases(rng, ctx.scale(700, 30000)), gen_wide_component_cases(rng, ctx.scale(150, 10000))):
+        for gc, gt in (gen_representation_cases(rng, ctx.scale(700, 20000)), gen_wide_component_cases(rng, ctx.scale(150, 6000))):
             cases += gc; tagsl += gt
     CH = 5000
     for i in range(0, len(cases), CH):
@@ -897,7 +897,7 @@ def run(ctx):
     long_arrays(ctx, LONG_QUICK if ctx.tier == 'quick' else LONG_THOROUGH)
     reused_dynamic_tolerances(ctx, ctx.scale(150, 6000))
     if not P6G_OFF:
-        mixed_float_types(ctx, ctx.scale(400, 20000))
+        mixed_float_types(ctx, ctx.scale(400, 15000))
         long_arrays_tolerance_kinds(ctx, [1500, 70001] if ctx.tier == 'quick' else [1001, 1500, 4097, 70001, 300007])
         reused_array_tolerances(ctx, ctx.scale(60, 3000))
     cli_route(ctx, n_vtu_pairs=ctx.scale(40, 169), rounds=ctx.scale(1, 10))
